@@ -186,7 +186,7 @@ Record SIa (e : eng) : Prop := {
   sia_oof : oof e = false;
   sia_nh : nohooks e;
   sia_task : forall t, t < ntasks e -> okst (st e t) = true /\ t_nid (tk e t) < length (nodes e) /\
-                                     (kind e t = KAct -> st e t <> SRunning) /\ (0 < t -> kind e t <> KWorkflow);
+                                     (kind e t = KAct -> st e t <> SPending) /\ (0 < t -> kind e t <> KWorkflow);
   sia_root : 0 < ntasks e /\ t_prev (tk e 0) = None /\ t_nid (tk e 0) = 0;
   sia_prev : forall t, 0 < t -> t < ntasks e -> exists q, t_prev (tk e t) = Some q /\ q < t /\ st e q <> SNone /\
                ((kind e q <> KAct /\ kind e t = child_kind (kind e q)) \/ (kind e t = kind e q /\ is_completed (st e q) = true));
@@ -304,11 +304,10 @@ Proof. unfold set_state. destruct (negb _); [auto|]. destruct (_ && _); auto. Qe
 
 (* writing a state s to task i: the structural invariant, given what s may be *)
 Lemma SIa_ss site e i s : SIa e -> i < ntasks e -> okst s = true -> s <> SNone ->
-  (kind e i = KAct -> s <> SRunning) ->
   (is_completed s = false -> is_completed (st e i) = false /\ ~ In i (queue e)) ->
   SIa (set_state site e i s).
 Proof.
-  intros H Hi Hok Hnn Hact Hopen. pose proof (sameS_set_state site e i s) as HS.
+  intros H Hi Hok Hnn Hopen. pose proof (sameS_set_state site e i s) as HS.
   destruct (misc_ss site e i s) as (Mn & Mx & Mo).
   constructor.
   - rewrite Mn. apply H.
@@ -317,7 +316,7 @@ Proof.
   - intros t. rewrite tk_set_state. destruct (_ && _); [|apply (sia_nh e H t)]. cbn [t_hooks t_evproc]. apply (sia_nh e H i).
   - intros t Ht. rewrite ntasks_set_state in Ht. rewrite (sameS_kind _ _ t HS), Mn. destruct HS as (_ & _ & HS). destruct (HS t) as [-> _].
     rewrite (st_ss site e i s t Hi). destruct (sia_task e H t Ht) as (A & B & C & D).
-    destruct (Nat.eqb_spec t i) as [->|]; auto.
+    destruct (Nat.eqb_spec t i) as [->|]; auto. split; [exact Hok|]. split; [exact B|]. split; [intros _ Hs; subst s; discriminate | exact D].
   - rewrite ntasks_set_state. destruct HS as (_ & _ & HS). destruct (HS 0) as [-> ->]. apply H.
   - intros t Ht0 Ht. rewrite ntasks_set_state in Ht. destruct (sia_prev e H t Ht0 Ht) as (q & A & B & C & D). exists q.
     rewrite !(sameS_kind _ _ _ HS). destruct HS as (_ & _ & HS). destruct (HS t) as [_ ->].
@@ -514,13 +513,12 @@ Proof.
   destruct (kind e j); cbn [lvl_of] in Hl; lia.
 Qed.
 (* writing a state to task i *)
-Lemma SI_ss site e i s : SI e -> i < ntasks e -> okst s = true -> s <> SNone ->
-  (kind e i = KAct -> s <> SRunning) ->
+Lemma SI_ssR site e i s : SI e -> i < ntasks e -> okst s = true -> s <> SNone ->
   (is_completed s = false -> is_completed (st e i) = false /\ ~ In i (queue e)) ->
   (s <> SRunning -> nochild e i) ->
   SI (set_state site e i s).
 Proof.
-  intros H Hi Hok Hnn Hact Hopen Hkids. pose proof (sameS_set_state site e i s) as HS.
+  intros H Hi Hok Hnn Hopen Hkids. pose proof (sameS_set_state site e i s) as HS.
   assert (Ho : forall j, opn (set_state site e i s) j -> opn e j).
   { intros j. unfold opn. rewrite (st_ss site e i s j Hi). destruct (Nat.eqb_spec j i) as [->|]; [|auto]. intros Hs. now apply Hopen. }
   constructor; [apply SIa_ss; auto; apply (si_a e H) | |].
@@ -530,6 +528,12 @@ Proof.
   - intros j1 j2 p H1 H2 P1 P2 O1 O2. rewrite ntasks_set_state in H1, H2. rewrite (sameS_parent _ _ j1 HS) in P1. rewrite (sameS_parent _ _ j2 HS) in P2.
     apply (si_one e H j1 j2 p); auto.
 Qed.
+Lemma SI_ss site e i s : SI e -> i < ntasks e -> okst s = true -> s <> SNone ->
+  (kind e i = KAct -> s <> SRunning) ->
+  (is_completed s = false -> is_completed (st e i) = false /\ ~ In i (queue e)) ->
+  (s <> SRunning -> nochild e i) ->
+  SI (set_state site e i s).
+Proof. intros H Hi Hok Hnn _ Hopen Hkids. now apply SI_ssR. Qed.
 (* starting a task: the parent of the new task is running and has no other open task *)
 Lemma SI_spawn v e nid p : SI e -> p < ntasks e -> nid < length (nodes e) -> st e p <> SNone ->
   ((kind e p <> KAct /\ n_kind (nd e nid) = child_kind (kind e p) /\ st e p = SRunning /\ nochild e p) \/
@@ -605,9 +609,9 @@ Proof.
     apply Hne. apply (si_one e H j i pp); auto.
 Qed.
 Lemma review_good : forall F cv from e p, SI e -> PX (fun t => t = p /\ st e t = SRunning) e -> nochild e p -> p < ntasks e ->
-  lvl_of (kind e p) + 2 <= F -> Good (review F cv from e p).
+  kind e p <> KAct -> lvl_of (kind e p) + 2 <= F -> Good (review F cv from e p).
 Proof.
-  induction F as [|f IH]; intros cv from e p H HP Hnc Hp HF; [lia|].
+  induction F as [|f IH]; intros cv from e p H HP Hnc Hp Hna HF; [lia|].
   rewrite review_S. destruct (si_nh e H from) as [_ Hev]. rewrite Hev.
   set (e0 := update_data e p (outputs e from)).
   assert (T0 : teq e e0) by apply teq_update_data.
@@ -718,15 +722,18 @@ Proof.
         -- destruct (parent_level e0 p pp H0 Hp0 Epp) as [Hlt Hlv].
            assert (Spp : st e2 pp = st e0 pp).
            { rewrite (teq_st _ _ pp T2). unfold e1. rewrite (st_ss 16 e0 p SCompleted pp Hp0). destruct (Nat.eqb_spec pp p); [lia | reflexivity]. }
-           apply IH; [exact H2 | | | |].
+           assert (Kpp0 : kind e2 pp = kind e0 pp).
+           { assert (Kpp : kind e1 pp = kind e0 pp) by (apply sameS_kind, sameS_set_state). now rewrite (teq_kind _ _ pp T2), Kpp. }
+           apply IH; [exact H2 | | | | |].
            ++ apply (PX_weaken _ _ _ P2). intros t [Ht1 Ht2] _ _. left. inversion Ht1; subst t. split; [reflexivity | now rewrite Spp].
            ++ apply (nochild_teq e1 e2 pp T2). apply (after_close 16 e0 p SCompleted pp H0 Hp0); auto. unfold opn. now rewrite Hr0.
            ++ rewrite (teq_len _ _ T2). lia.
+           ++ rewrite Kpp0. intros Hka. rewrite Hka, Ek in Hlv. cbn [lvl_of] in Hlv. lia.
            ++ assert (Kpp : kind e1 pp = kind e0 pp) by (apply sameS_kind, sameS_set_state). rewrite (teq_kind _ _ pp T2), Kpp. rewrite <- K0 in HF. rewrite Ek in Hlv. cbn [lvl_of] in *. lia.
         -- split; [exact H2|]. apply (PX_weaken _ _ _ P2). intros t [Hx _]. discriminate.
     + rewrite Hr0. cbn [is_completed andb]. apply (Hfalse _ Ed). intros c Hc. exact Hc.
   - (* act: never running *)
-    exfalso. apply Hact; [reflexivity | exact Hr0].
+    exfalso. apply Hna. now rewrite <- K0.
 Qed.
 
 (* ---------- the end of `next` for a task that has just been closed: start the successor, or review the parent ---------- *)
@@ -782,10 +789,11 @@ Proof.
     destruct (si_nh e2 H2 i) as [_ ->]. cbn [negb andb]. rewrite (teq_parent _ _ i T2).
     destruct (parent e i) as [p|] eqn:Ep.
     + destruct (parent_level e i p H Hi Ep) as [Hlt Hlv].
-      apply review_good; [exact H2 | | | |].
+      apply review_good; [exact H2 | | | | |].
       * apply (PX_weaken _ _ _ P2). intros t [Ht1 Ht2] _ _. left. inversion Ht1; subst t. split; [reflexivity | now rewrite (teq_st _ _ p T2)].
       * apply (nochild_teq e e2 p T2). apply (Hpar p eq_refl).
       * rewrite (teq_len _ _ T2). lia.
+      * rewrite (teq_kind _ _ p T2). intros Hka. rewrite Hka in Hlv. cbn [lvl_of] in Hlv. destruct (kind e i); cbn [lvl_of] in Hlv; lia.
       * rewrite (teq_kind _ _ p T2). lia.
     + split; [exact H2|]. apply (PX_weaken _ _ _ P2). intros t [Hx _]. discriminate.
 Qed.
@@ -915,7 +923,7 @@ Proof. induction l as [|x l IH]; cbn [filter length]; [lia|]. destruct (g x); cb
 Lemma frag_facts e t : SI e -> t < ntasks e ->
   let n := tnode e t in
   n_if n = None /\ n_setup n = [] /\ n_kind n <> KBranch /\ length (normal_children n) <= 1 /\
-  (n_kind n = KAct -> sp_u (n_spec n) = UIrq /\ n_children n = []) /\
+  (n_kind n = KAct -> (sp_u (n_spec n) = UIrq \/ sp_u (n_spec n) = UMsg) /\ n_children n = [] /\ n_isset n = false) /\
   (forall c, In c (normal_children n) -> c < length (nodes e) /\ n_kind (nd e c) = child_kind (n_kind n)).
 Proof.
   intros H Ht n. pose proof (SI_fnode e t H Ht) as F. fold n in F. unfold frag_node in F.
@@ -927,8 +935,8 @@ Proof.
   { match goal with Hx : Nat.leb (length (n_children n)) 1 = true |- _ => apply Nat.leb_le in Hx; rename Hx into Hlen end.
     unfold normal_children, children_in. rewrite map_length. pose proof (filter_len (fun c => okind_beq (fst c) ONormal) (n_children n)). lia. }
   split.
-  - intros Hk. rewrite Hk in *. cbn [nkind_beq] in *. match goal with Hx : _ && _ = true |- _ => apply andb_true_iff in Hx as [A B] end.
-    split; [destruct (sp_u _); try discriminate; reflexivity | destruct (n_children n); [reflexivity | discriminate]].
+  - intros Hk. rewrite Hk in *. cbn [nkind_beq] in *. match goal with Hx : _ && _ && _ = true |- _ => apply andb_true_iff in Hx as [A B]; apply andb_true_iff in A as [A A2] end.
+    split; [destruct (sp_u _); try discriminate; auto|]. split; [destruct (n_children n); [reflexivity | discriminate] | now apply negb_true_iff in B].
   - intros c Hc. unfold normal_children, children_in in Hc. apply in_map_iff in Hc as ([k c'] & <- & Hc). apply filter_In in Hc as [Hc _].
     match goal with Hx : forallb _ (n_children n) = true |- _ => rewrite forallb_forall in Hx; specialize (Hx _ Hc) end.
     cbn [fst snd] in *. repeat match goal with Hx : _ && _ = true |- _ => apply andb_true_iff in Hx as [Hx ?] end.
@@ -1012,6 +1020,21 @@ Proof.
   intros Hx Hst. unfold exec_rest. rewrite Hx, Hst. change (is SInterrupt SPending) with false. cbv iota. cbv zeta.
   rewrite Hst. change (is SInterrupt SReady) with false. rewrite andb_false_r. reflexivity.
 Qed.
+Lemma kind_init_M a i : n_kind (tnode a i) = KAct -> n_if (tnode a i) = None -> n_setup (tnode a i) = [] -> sp_u (n_spec (tnode a i)) = UMsg ->
+  kind_init a i = set_state 5 (set_silent (set_timeouts (set_catches a i (n_catches (tnode a i))) i (n_timeouts (tnode a i))) i true) i SReady.
+Proof. intros Hk Hi Hs Hu. unfold kind_init. rewrite Hk, Hi, Hs, Hu. reflexivity. Qed.
+(* running a message act: it has nothing to start, its message goes out *)
+Lemma exec_rest_msg f cv e1 i : exn e1 = false -> st e1 i = SReady -> kind e1 i = KAct ->
+  let er := set_state 7 e1 i SRunning in
+  kind er i = KAct -> sp_u (n_spec (tnode e1 i)) = UMsg -> sp_u (n_spec (tnode er i)) = UMsg ->
+  n_isset (tnode (set_silent er i false) i) = false -> normal_children (tnode (set_silent er i false) i) = [] ->
+  exec_rest f cv e1 i = next f cv (emit f (set_silent er i false) i) i.
+Proof.
+  intros Hx Hst Hk1 er Hk2 Hu1 Hu2 His Hnc. unfold exec_rest. rewrite Hx, Hst. change (is SReady SPending) with false. cbv iota. cbv zeta.
+  rewrite Hst, Hk1, Hu1. change (is SReady SReady) with true. cbn [nkind_beq is_fail andb]. cbv iota.
+  fold er. rewrite Hk2, Hu2. cbv iota. rewrite His. cbv iota. rewrite Hnc. unfold sched_nodes. cbn [fold_left]. reflexivity.
+Qed.
+
 
 Lemma sameS_trans a b c : sameS a b -> sameS b c -> sameS a c.
 Proof.
@@ -1169,6 +1192,35 @@ Proof.
     clearbody e3. destruct (negb _ && negb _); rewrite ?Par3; exact G3.
 Qed.
 
+(* a running message act has nothing beneath it: it completes at once, starts its successor or hands over to its step *)
+Lemma next_msg_act f e2 i : SI e2 -> i < ntasks e2 -> kind e2 i = KAct -> st e2 i = SRunning -> children e2 i = [] ->
+  PX (fun t => t = i) e2 -> Good (next (S (S (S (S f)))) [] e2 i).
+Proof.
+  intros H2 Hi K2 S2 Hnil P2. rewrite next_S.
+  rewrite S2. change (is_next SRunning) with true. cbv iota. rewrite K2. change (is SRunning SRunning) with true. cbv iota.
+  rewrite Hnil. cbn [fold_left]. cbv beta iota zeta. rewrite ?Hnil. cbn [forallb]. cbv beta iota zeta. rewrite S2. cbn [is_completed negb].
+  set (e3 := set_state 12 e2 i SCompleted).
+  assert (H3 : SI e3) by (apply SI_ssR; auto; try discriminate; intros _; now apply nochild_nil).
+  assert (S3 : st e3 i = SCompleted) by (unfold e3; now rewrite (st_ss 12 e2 i SCompleted i Hi), Nat.eqb_refl).
+  assert (HS3 : sameS e2 e3) by apply sameS_set_state.
+  assert (Hi3 : i < ntasks e3) by (unfold e3; now rewrite ntasks_set_state).
+  assert (K3 : kind e3 i = KAct) by (now rewrite (sameS_kind _ _ i HS3)).
+  assert (P3 : PX (fun t => parent e3 i = Some t /\ st e3 t = SRunning) e3).
+  { apply (PX_weaken _ _ _ (PX_close 12 _ e2 i SCompleted P2 Hi eq_refl)). intros t [-> | [Hp Hr]] Ht Ho.
+    - unfold opn in Ho. fold e3 in Ho. rewrite S3 in Ho. discriminate.
+    - left. rewrite (sameS_parent _ _ i HS3). split; [exact Hp|]. unfold e3. rewrite (st_ss 12 e2 i SCompleted t Hi).
+      destruct (Nat.eqb_spec t i) as [->|]; [|exact Hr]. apply (parent_lt e2 i i (SI_W e2 H2) Hi) in Hp. lia. }
+  assert (T : Good (tail (S (S (S f))) [] e3 i (n_next (tnode e3 i)))).
+  { apply tail_good; auto; [now rewrite S3 | rewrite K3; discriminate | | rewrite K3; cbn [lvl_of]; lia].
+    intros pp Hpp. rewrite (sameS_parent _ _ i HS3) in Hpp. apply (after_close 12 e2 i SCompleted pp H2 Hi); auto. unfold opn. now rewrite S2. }
+  unfold tail in T. clearbody e3.
+  destruct (n_next (tnode e3 i)) as [nx|]; cbv beta iota zeta in T |- *.
+  - assert (E : is_completed (st (sched_next e3 nx i) i) = true).
+    { unfold sched_next. rewrite st_spawn. destruct (Nat.eqb_spec i (ntasks e3)); [lia | now rewrite S3]. }
+    rewrite E. exact T.
+  - rewrite S3. cbn [is_completed]. exact T.
+Qed.
+
 Lemma exec_good e i : SI e -> PX (fun t => t = i) e -> i < ntasks e -> st e i = SNone -> ~ In i (queue e) ->
   Good (exec (fuel_of e) [] e i).
 Proof.
@@ -1222,8 +1274,71 @@ Proof.
     rewrite (exec_rest_ready _ [] e1 i KStep); auto; [|apply H1 | rewrite (sameS_kind _ _ i (sameS_set_state 7 e1 i SRunning)); exact K1].
     destruct (run_state (S (S (S f))) e1 i KStep ltac:(auto) H1 P1 Hi1 S1 K1 Q1 C1) as (A & B & C & _ & D).
     apply (next_after_run f _ i KStep); auto.
-  - (* act: it waits for a client *)
-    destruct (Fact eq_refl) as [Fu _].
+  - destruct (Fact eq_refl) as [[Fu | Fu] [Fch Fis]].
+    2:{ (* a message act: ready, running, its message, completed *)
+    rewrite (kind_init_M a i Ekn Fif Fsetup Fu). cbv zeta.
+    set (a' := set_silent (set_timeouts (set_catches a i (n_catches (tnode a i))) i (n_timeouts (tnode a i))) i true).
+    assert (Ta : teq a a') by (eapply teq_trans; [eapply teq_trans; [apply teq_set_catches | apply teq_set_timeouts] | apply teq_set_silent]).
+    assert (Ha' : SI a') by (eapply SI_teq; eauto).
+    assert (Pa' : PX (fun t => t = i) a') by (eapply PX_teq; eauto).
+    assert (Sa' : st a' i = SReady) by (now rewrite (teq_st _ _ i Ta)).
+    assert (Hia' : i < ntasks a') by (rewrite (teq_len _ _ Ta); exact Hia).
+    assert (Qa' : ~ In i (queue a')) by (destruct Ta as (_ & -> & _); exact Qa).
+    assert (Ka' : kind a' i = KAct) by (rewrite (teq_kind _ _ i Ta); exact Ekn).
+    assert (Tn' : tnode a' i = tnode a i) by (now apply teq_tnode).
+    assert (Ca' : children a' i = []) by (now rewrite (teq_children _ _ i Ta)).
+    clearbody a'.
+    set (b := set_state 5 a' i SReady).
+    assert (Hb : SI b) by (apply SI_ssR; auto; try discriminate; [intros _; rewrite Sa'; auto | intros _; now apply nochild_nil]).
+    assert (Pb : PX (fun t => t = i) b) by (apply PX_open; auto).
+    assert (Sb : st b i = SReady) by (unfold b; now rewrite (st_ss 5 a' i SReady i Hia'), Nat.eqb_refl).
+    assert (HSb : sameS a' b) by apply sameS_set_state.
+    assert (Kb : kind b i = KAct) by (now rewrite (sameS_kind _ _ i HSb)).
+    assert (Tnb : tnode b i = tnode a i) by (now rewrite (sameS_tnode _ _ i HSb)).
+    assert (Hib : i < ntasks b) by (unfold b; now rewrite ntasks_set_state).
+    assert (Qb : ~ In i (queue b)) by (unfold b; now rewrite queue_set_state).
+    assert (Cb : children b i = []) by (now rewrite (sameS_children _ _ i HSb)).
+    clearbody b. rewrite (si_exn b Hb), Sb. change (negb (is_completed SReady)) with true. cbv iota.
+    set (e1 := emit (S (S (S (S f)))) b i).
+    assert (T1 : teq b e1) by (apply emit_teqS; [exact Hb | rewrite Sb; discriminate | rewrite Kb; discriminate]).
+    assert (H1 : SI e1) by (eapply SI_teq; eauto).
+    assert (P1 : PX (fun t => t = i) e1) by (eapply PX_teq; eauto).
+    assert (S1 : st e1 i = SReady) by (now rewrite (teq_st _ _ i T1)).
+    assert (K1 : kind e1 i = KAct) by (now rewrite (teq_kind _ _ i T1)).
+    assert (Tn1 : tnode e1 i = tnode a i) by (now rewrite (teq_tnode _ _ i T1)).
+    assert (Hi1 : i < ntasks e1) by (rewrite (teq_len _ _ T1); exact Hib).
+    assert (Q1 : ~ In i (queue e1)) by (destruct T1 as (_ & -> & _); exact Qb).
+    assert (C1 : children e1 i = []) by (now rewrite (teq_children _ _ i T1)).
+    clearbody e1.
+    set (er := set_state 7 e1 i SRunning).
+    assert (Hr : SI er) by (apply SI_ssR; auto; try discriminate; [intros _; rewrite S1; auto | intros Hx; now destruct Hx]).
+    assert (Pr : PX (fun t => t = i) er) by (apply PX_open; auto).
+    assert (Sr : st er i = SRunning) by (unfold er; now rewrite (st_ss 7 e1 i SRunning i Hi1), Nat.eqb_refl).
+    assert (HSr : sameS e1 er) by apply sameS_set_state.
+    assert (Kr : kind er i = KAct) by (now rewrite (sameS_kind _ _ i HSr)).
+    assert (Tnr : tnode er i = tnode a i) by (now rewrite (sameS_tnode _ _ i HSr)).
+    assert (Hir : i < ntasks er) by (unfold er; now rewrite ntasks_set_state).
+    assert (Cr : children er i = []) by (now rewrite (sameS_children _ _ i HSr)).
+    set (er0 := set_silent er i false).
+    assert (T0 : teq er er0) by apply teq_set_silent.
+    assert (Tn0 : tnode er0 i = tnode a i) by (now rewrite (teq_tnode _ _ i T0)).
+    assert (E : exec_rest (S (S (S (S f)))) [] e1 i = next (S (S (S (S f)))) [] (emit (S (S (S (S f)))) er0 i) i).
+    { apply exec_rest_msg; auto; [apply (si_exn e1 H1) | now rewrite Tn1 | fold er; now rewrite Tnr | fold er er0; now rewrite Tn0 |].
+      fold er er0. rewrite Tn0. unfold normal_children, children_in. now rewrite Fch. }
+    rewrite E.
+    assert (H0 : SI er0) by (eapply SI_teq; eauto).
+    set (e2 := emit (S (S (S (S f)))) er0 i).
+    assert (T2 : teq er0 e2).
+    { apply emit_teqS; [exact H0 | rewrite (teq_st _ _ i T0), Sr; discriminate | rewrite (teq_kind _ _ i T0), Kr; discriminate]. }
+    assert (T02 : teq er e2) by (eapply teq_trans; eauto).
+    apply next_msg_act.
+    - eapply SI_teq; eauto.
+    - rewrite (teq_len _ _ T02). exact Hir.
+    - now rewrite (teq_kind _ _ i T02).
+    - now rewrite (teq_st _ _ i T02).
+    - now rewrite (teq_children _ _ i T02).
+    - eapply PX_teq; eauto. }
+    (* an interactive act: it waits for a client *)
     rewrite (kind_init_A a i Ekn Fif Fsetup Fu). cbv zeta.
     set (a' := set_timeouts (set_catches a i (n_catches (tnode a i))) i (n_timeouts (tnode a i))).
     assert (Ta : teq a a') by (eapply teq_trans; [apply teq_set_catches | apply teq_set_timeouts]).
@@ -1353,18 +1468,18 @@ Theorem sequential_interactive_never_stuck ns c0 ops :
 Proof. intros F Hops. apply good_not_stuck. now apply run_good. Qed.
 
 (* ---------- the class is not empty, and its runs are not trivial ---------- *)
-(* two steps, the first with two acts in sequence and outputs, the second with one act *)
-Definition w_seq := wf [Tree.Step 1 None None [] [] [] [] [Tree.Act 2 None irq [] [] None [] [] []; Tree.Act 3 None irq [] [(5, VNull)] None [] [] []] [] [];
+(* two steps, the first with an interactive act, a message act and an interactive act with outputs, the second with one act *)
+Definition w_seq := wf [Tree.Step 1 None None [] [] [] [] [Tree.Act 2 None irq [] [] None [] [] []; Tree.Act 6 None (ASpec UMsg 0 true None []) [] [] None [] [] []; Tree.Act 3 None irq [] [(5, VNull)] None [] [] []] [] [];
                         Tree.Step 4 None None [] [] [] [] [Tree.Act 5 None irq [] [] None [] [] []] [] []].
 Lemma w_seq_in_class : option_map frag_nodes (Tree.build_tree 30 w_seq) = Some true.
 Proof. vm_compute. reflexivity. Qed.
-Definition ops_seq := [OAct 2 ANext []; ODrain; OAct 3 ASubmit [(5, VNum 7)]; OSched 0; OAct 5 ARemove []; ODrain].
+Definition ops_seq := [OAct 2 ANext []; ODrain; OAct 4 ASubmit [(5, VNum 7)]; OSched 0; OAct 6 ARemove []; ODrain].
 Lemma ops_seq_in_class : forallb frag_op ops_seq = true. Proof. reflexivity. Qed.
 (* at rest after the start: unfinished, act 2 waits; after the whole history the process has completed *)
 Lemma w_seq_runs :
   option_map (fun e => (queue e, pstate e, st e 2)) (go w_seq []) = Some ([], SRunning, SInterrupt) /\
   option_map (fun e => (queue e, pstate e, map (fun t => st e t) (all_tasks e))) (go w_seq ops_seq)
-    = Some ([], SCompleted, [SCompleted; SCompleted; SCompleted; SSubmitted; SCompleted; SRemoved]).
+    = Some ([], SCompleted, [SCompleted; SCompleted; SCompleted; SCompleted; SSubmitted; SCompleted; SRemoved]).
 Proof. split; vm_compute; reflexivity. Qed.
 Theorem go_never_stuck w ops : option_map frag_nodes (Tree.build_tree 30 w) = Some true -> forallb frag_op ops = true ->
   option_map stuck (go w ops) = Some false.
